@@ -431,6 +431,11 @@ def run(ctx):
     ctx.evaluations += min(len(kept), ctx.n(80, 800))
     if why:
         ctx.problem('oracle', 'property fails on the implementation: ' + why, inputs=dict(inp, suite='operands_unchanged'), failing_input_found=True)
+    why = oracle_fractional_poly()
+    ctx.suites['fractional_polynomial_powers'] = {'cases': 7, 'failure': why}
+    ctx.evaluations += 7
+    if why:
+        ctx.problem('oracle', 'property fails on the implementation: ' + why, inputs={'suite': 'fractional_polynomial_powers'}, failing_input_found=True)
     # replay of the repaired defect F4
     why = probe_eq_sym()
     if why:
@@ -479,6 +484,33 @@ def oracle_operands(rng, kept, limit):
             if got != want:
                 return '(f + g) - f differs from g (%s): %s vs %s' % (label, got[:4], want[:4]), {'tree': tree_json(t), 'n': n, 'poly': poly, 'g_rows': pick}
     return None, None
+
+
+def oracle_fractional_poly():
+    """a Polynomial has integer exponents: operations whose exact result is not a polynomial raise instead of returning another function"""
+    Signomial, ssm, Polynomial, spm = sigmod()
+    x = spm(2)
+    bad = [('(x0**3)**0.5', lambda: (x[0] ** 3) ** 0.5), ('x0**2.5', lambda: x[0] ** 2.5), ('(4*x0*x1**3)**0.5', lambda: (4 * x[0] * x[1] ** 3) ** 0.5),
+           ('Polynomial.from_dict({(0.5, 1): 2})', lambda: Polynomial.from_dict({(0.5, 1.0): 2.0})),
+           ('Signomial({(1.5,0):1, (0,1):1}).as_polynomial()', lambda: Signomial.from_dict({(1.5, 0.0): 1.0, (0.0, 1.0): 1.0}).as_polynomial())]
+    for name, fn in bad:
+        try:
+            r = fn()
+        except (ValueError, RuntimeError, TypeError):
+            continue
+        except Exception as e:
+            return '%s raised %r' % (name, e)
+        return '%s returned the polynomial with exponents %s, coefficients %s although the exact result has a non-integer exponent' % (
+            name, np.asarray(r.alpha).tolist(), np.asarray(r.c).tolist())
+    good = [('(x0**2)**0.5', lambda: (x[0] ** 2) ** 0.5, [[1, 0]], [1.0]), ('(4*x0**2*x1**4)**0.5', lambda: (4 * x[0] ** 2 * x[1] ** 4) ** 0.5, [[1, 2]], [2.0])]
+    for name, fn, ea, ec in good:
+        try:
+            r = fn()
+        except Exception as e:
+            return '%s raised %r' % (name, e)
+        if np.asarray(r.alpha, dtype=float).tolist() != [[float(v) for v in ea[0]]] or np.asarray(r.c, dtype=float).tolist() != ec:
+            return '%s gives exponents %s, coefficients %s' % (name, np.asarray(r.alpha).tolist(), np.asarray(r.c).tolist())
+    return None
 
 
 def probe_eq_sym():
